@@ -763,6 +763,9 @@ func readNodeSizeFromReaderAtWithOffset(reader io.ReaderAt, offset uint64) (uint
 }
 
 func readNodeWithKnownSize(br *bufio.Reader, wantedCid *cid.Cid, length uint64) ([]byte, error) {
+	if length > uint64(util.MaxAllowedSectionSize)+binary.MaxVarintLen64 { // Don't OOM: the size comes from an index file
+		return nil, fmt.Errorf("section size %d is bigger than util.MaxAllowedSectionSize", length)
+	}
 	section := make([]byte, length)
 	_, err := io.ReadFull(br, section)
 	if err != nil {
